@@ -282,8 +282,8 @@ class SimpleForwardModel(ForwardModel):
                                                    Pl,
                                                    mu_profile)
         self.altitude_profile = z[:-1]
-        self.scaleheight_profile = H[:-1]
-        self.gravity_profile = g[:-1]
+        self.scaleheight_profile = H
+        self.gravity_profile = g
         self.altitude_boundaries = z
         self.deltaz = deltaz
 
